@@ -790,3 +790,66 @@ def make_executor_cls(sched, registry):
     def factory(max_workers=None):
         return DetExecutor(sched, max_workers, registry)
     return factory
+
+
+# --------------------------------------------------------------------------
+# line-granularity preemption (sys.monitoring, Python >= 3.12)
+# --------------------------------------------------------------------------
+class LinePreempter:
+    """Turns the n-th executed source line of s3transfer/*.py (n in a drawn
+    set) into a scheduling point, so races that do not go through a
+    synchronisation primitive (e.g. a dropped `with self._lock`) become
+    reachable.  Only lines run by controlled threads count."""
+
+    TOOL = 3
+
+    def __init__(self, sched, at):
+        self.sched = sched
+        self.at = set(int(x) for x in at)
+        self.n = 0
+        self.active = False
+
+    def __enter__(self):
+        import sys
+        if not self.at or not hasattr(sys, 'monitoring'):
+            return self
+        mon = sys.monitoring
+        try:
+            mon.use_tool_id(self.TOOL, 'vt-lines')
+        except ValueError:
+            return self
+        self.active = True
+        import os
+        from . import REPO
+        prefix = os.path.join(REPO, 's3transfer') + os.sep
+        sched = self.sched
+        owner = self
+
+        def on_line(code, line):
+            if not code.co_filename.startswith(prefix):
+                return mon.DISABLE
+            cur = sched.cur
+            if cur is None or sched.aborting:
+                return None
+            import threading as _t
+            if _t.current_thread() is not cur.os:
+                return None
+            owner.n += 1
+            if owner.n in owner.at:
+                sched.point(None, f'line:{os.path.basename(code.co_filename)}'
+                                  f':{line}')
+            return None
+
+        mon.register_callback(self.TOOL, mon.events.LINE, on_line)
+        mon.set_events(self.TOOL, mon.events.LINE)
+        return self
+
+    def __exit__(self, *a):
+        if self.active:
+            import sys
+            mon = sys.monitoring
+            mon.set_events(self.TOOL, 0)
+            mon.register_callback(self.TOOL, mon.events.LINE, None)
+            mon.free_tool_id(self.TOOL)
+            mon.restart_events()
+            self.active = False
